@@ -29,7 +29,7 @@ RULE = (
     "node, or a dispatch through a base-class method; distinct = distinct (tree fingerprint, rule set)"
 )
 ASSUMPTIONS = ["CPython's __mro__ is the reference for 'nearest class in its MRO'"]
-MUST_SEE = [
+MUST_SEE = ["raised_BoomAttr", "raised_BoomKey", 
     "remove_first", "remove_middle", "remove_last", "remove_all", "remove_single_optional", "unchanged_subtree_under_changed_root",
     "strict_base_only_generic", "raise_below_depth2", "dispatch_second_base", "unchanged_returns_self", "validate_mismatch_raised",
     "validate_ok", "frames_checked", "derived_visitor_after_base_used",
@@ -41,6 +41,27 @@ CONFIG = {
 
 
 class Boom(Exception):
+    pass
+
+
+# what a user's visit method raises may be of any exception family (look-up errors the dispatcher itself might catch included)
+class BoomAttr(Boom, AttributeError):
+    pass
+
+
+class BoomKey(Boom, KeyError):
+    pass
+
+
+class BoomType(Boom, TypeError):
+    pass
+
+
+class BoomStop(Boom, StopIteration):
+    pass
+
+
+class _Unused(Exception):
     pass
 
 
@@ -303,6 +324,7 @@ def run_shard(ctx):
         calls_real = []
 
         busy = rng.random() < 0.3
+        boom_cls = rng.choice([Boom, BoomAttr, BoomAttr, BoomKey, BoomType, BoomStop])
         if busy:
             ctx.count("rules_that_traverse_and_serialize")
 
@@ -329,7 +351,8 @@ def run_shard(ctx):
                 if action == "remove":
                     return None
                 if action == "raise":
-                    raise Boom("rule raised")
+                    ctx.count("raised_" + boom_cls.__name__)
+                    raise boom_cls("rule raised")
                 raise ValueError(action)
 
             return meth
